@@ -736,9 +736,9 @@ impl A {
             };
             return format!("open {} {} {}", n, k, m);
         }
-        if roll < 64 && !open.is_empty() {
+        let writable: Vec<(u32, (u64, u64, bool))> = open.iter().filter(|x| x.1 .2).cloned().collect();
+        if roll < 64 && (!writable.is_empty() || (bad && !open.is_empty())) {
             // write
-            let writable: Vec<(u32, (u64, u64, bool))> = open.iter().filter(|x| x.1 .2).cloned().collect();
             let (h, (n, k, _)) = if writable.is_empty() || (bad && bad_kind == 0) { *rng.pick(&open) } else { *rng.pick(&writable) };
             let h = if bad && bad_kind == 1 { h + 7 } else { h };
             let cur = g.nodes.get(&n).and_then(|x| x.1.get(&k)).cloned().unwrap_or(Val { owns: vec![], refs: vec![] });
